@@ -1,2 +1,9 @@
 #!/bin/sh
-exit 0
+# Build the engine from files on disk only and warm the export data the
+# loader needs (go/packages takes non-source dependencies from the build cache).
+set -e
+export PATH=/root/go/pkg/mod/golang.org/toolchain@v0.0.1-go1.26.2.linux-amd64/bin:$PATH GOTOOLCHAIN=local GOFLAGS=-mod=mod GOPROXY=off
+mkdir -p /verif/bin /verif/.work /verif/evidence /verif/replays
+(cd /verif/symgo && go build -o /verif/bin/symgo ./cmd/symgo)
+(cd /repo && go build ./... )
+echo setup done
